@@ -14,6 +14,8 @@ import (
 	"sort"
 	"strconv"
 	"strings"
+	"sync"
+	"sync/atomic"
 	"time"
 
 	"lunar/engine/actions"
@@ -266,7 +268,7 @@ func (e *env) cfg(w []string) string {
 		e.clk = e.gate.Manual
 		e.mc = utils.NewMemoryCache[string, string](e.gate)
 		if maxBytes >= 0 {
-			e.mc.WithMaxCacheSize(func(k, v string) float64 { return float64(len(k)+len(v)) / 1024 / 1024 },
+			e.mc.WithMaxCacheSize(func(k, v string) float64 { rvMeet(); return float64(len(k)+len(v)) / 1024 / 1024 },
 				float64(maxBytes)/mb)
 		}
 	case "caching":
@@ -500,7 +502,7 @@ func (e *env) cacheOp(w []string) string {
 		}
 		e.cnt("cache-set-ok")
 		return "ok"
-	case "get", "has", "del":
+	case "get", "has", "del", "del2":
 		if len(w) != 2 {
 			return "bad-op"
 		}
@@ -519,6 +521,21 @@ func (e *env) cacheOp(w []string) string {
 			return "miss"
 		case "has":
 			return strconv.FormatBool(e.mc.Has(k))
+		case "del2":
+			// two overlapping removals of one key.  The size function (ours) holds a caller for up to rvWait until
+			// a second caller is inside it too: in code that measures the entry under the write lock no second
+			// caller can get there (the wait runs out, the answer is that of one removal followed by a no-op);
+			// code that measures outside the lock lets both in and they both subtract.
+			rvArmed.Store(true)
+			var wg sync.WaitGroup
+			for g := 0; g < 2; g++ {
+				wg.Add(1)
+				go func() { defer wg.Done(); e.mc.Del(k) }()
+			}
+			wg.Wait()
+			rvArmed.Store(false)
+			e.cnt("cache-del2")
+			return "ok"
 		default:
 			e.mc.Del(k)
 			return "ok"
@@ -865,7 +882,7 @@ func execOnce(c proto.Case, o *proto.Out, count bool) ([]string, bool) {
 			continue
 		}
 		switch {
-		case e.mode == "cache" && (w[0] == "set" || w[0] == "get" || w[0] == "has" || w[0] == "del"):
+		case e.mode == "cache" && (w[0] == "set" || w[0] == "get" || w[0] == "has" || w[0] == "del" || w[0] == "del2"):
 			outs[i] = e.cacheOp(w)
 		case e.mode != "cache" && (w[0] == "resp" || w[0] == "req"):
 			outs[i] = e.pluginOp(w)
@@ -917,3 +934,22 @@ func main() {
 }
 
 var _ = sort.Strings
+
+// rendezvous inside the cache's size function (see "del2")
+const rvWait = 25 * time.Millisecond
+
+var (
+	rvArmed atomic.Bool
+	rvCh    = make(chan struct{})
+)
+
+func rvMeet() {
+	if !rvArmed.Load() {
+		return
+	}
+	select {
+	case rvCh <- struct{}{}:
+	case <-rvCh:
+	case <-time.After(rvWait):
+	}
+}
